@@ -217,8 +217,27 @@ def tlc(module, cfg, wd, env=None, workers=None, timeout=1800, coverage=False, s
         e.update({k: str(v) for k, v in env.items()})
     t0 = time.time()
     try:
-        p = subprocess.run(cmd, cwd=wd, env=e, stdout=subprocess.PIPE, stderr=subprocess.STDOUT, timeout=timeout,
-                           text=True)
+        if simulate:
+            # a simulation evaluates the printing invariant on every successor it enumerates: the same line comes
+            # millions of times.  Read the output as a stream and keep each distinct print line once.
+            p = subprocess.Popen(cmd, cwd=wd, env=e, stdout=subprocess.PIPE, stderr=subprocess.STDOUT, text=True,
+                                 bufsize=1 << 20)
+            seen, keep = set(), []
+            for line in p.stdout:
+                if line[:1] in '"<':
+                    if line in seen:
+                        continue
+                    seen.add(line)
+                keep.append(line)
+                if time.time() - t0 > timeout:
+                    p.kill()
+                    raise subprocess.TimeoutExpired(cmd, timeout)
+            p.wait()
+            p.stdout = "".join(keep)
+            del seen, keep
+        else:
+            p = subprocess.run(cmd, cwd=wd, env=e, stdout=subprocess.PIPE, stderr=subprocess.STDOUT, timeout=timeout,
+                               text=True)
     except subprocess.TimeoutExpired as ex:
         subprocess.run(["pkill", "-f", "metadir " + meta], check=False)
         raise Machinery("TLC timeout on %s after %ss" % (module, timeout))
